@@ -26,6 +26,18 @@ theorem C24_convert_sound (H : OpsOK) (anno : Nat → SI) (env : Nat → Nat)
   let g := convBV_good H anno env hctx e o av o' hwt h
   ⟨g.1.1, g.1.2, (g.2 v hv).1⟩
 
+/-- **names**: two abstract values that carry the same name (the name of a variable, or the fresh name of a shared
+sub-AST that survived `ZeroExt` / non-negative `SignExt` / full `Extract` / a selecting `If`) have the same concrete value
+under every assignment - which is what `==` / `!=` answer `True` / `False` on -/
+theorem C24_same_name_same_value (H : OpsOK) (anno : Nat → SI) (env : Nat → Nat)
+    (hctx : ∀ i, (anno i).WF ∧ (anno i).mem (env i))
+    (e1 e2 : BV) (o1 o1' o2 o2' : Orders) (av1 av2 : AV) (hwt1 : WTBV anno env e1) (hwt2 : WTBV anno env e2)
+    (h1 : convBV anno e1 o1 = .ok (av1, o1')) (h2 : convBV anno e2 o2 = .ok (av2, o2'))
+    (hn : av1.name.isSome = true) (heq : av1.name = av2.name)
+    (v1 v2 : Nat) (hv1 : evalBV env e1 = some v1) (hv2 : evalBV env e2 = some v2) : v1 = v2 :=
+  nameOK_eq env av1.name v1 v2 hn ((convBV_good H anno env hctx e1 o1 av1 o1' hwt1 h1).2 v1 hv1).2
+    (by rw [heq]; exact ((convBV_good H anno env hctx e2 o2 av2 o2' hwt2 h2).2 v2 hv2).2)
+
 /-- Boolean ASTs: the abstract truth value admits every truth value that occurs -/
 theorem C24_bool_sound (H : OpsOK) (anno : Nat → SI) (env : Nat → Nat)
     (hctx : ∀ i, (anno i).WF ∧ (anno i).mem (env i))
@@ -34,10 +46,10 @@ theorem C24_bool_sound (H : OpsOK) (anno : Nat → SI) (env : Nat → Nat)
   convB_good H anno env hctx c o br o' hwt h b hb
 
 /-- `If`: whichever branch the concrete condition selects, its value is in the result (a branch is dropped only when
-the abstract condition excludes it) -/
+the abstract condition excludes it); `fresh` = the name a join gets (any) -/
 theorem C24_if_join (H : OpsOK) (cv : BoolRes) (x y r : AV) (c : Bool) (vx vy : Nat)
     (hx : x.si.WF ∧ x.si.mem vx) (hy : y.si.WF ∧ y.si.mem vy) (hbits : x.si.bits = y.si.bits)
-    (hc : cv.has c = true) (h : iteBV cv x y = .ok r) : r.si.mem (if c then vx else vy) := by
+    (hc : cv.has c = true) (fresh : Option NameKey) (h : iteBV cv x y fresh = .ok r) : r.si.mem (if c then vx else vy) := by
   unfold iteBV at h
   by_cases hT : (!cv.hasTrue) = true
   · rw [if_pos hT] at h
@@ -126,6 +138,20 @@ theorem C24_sound_bool (anno : Nat → SI) (env : Nat → Nat)
     (h : convB anno c o = .ok (br, o')) (b : Bool) (hb : evalB env c = some b) : br.has b = true :=
   convB_rest_good anno env hctx hnrm c o br o' (fun hh => by rw [usesRestB_false c] at hh; cases hh) hal hdef hwt h b hb
 
+/-- names, with the proved interval operations: no hypothesis on them left -/
+theorem C24_same_name_same_value_proved (anno : Nat → SI) (env : Nat → Nat)
+    (hctx : ∀ i, (anno i).WF ∧ (anno i).mem (env i)) (hnrm : ∀ i, Nrm (anno i))
+    (e1 e2 : BV) (hdef1 : DefBV env e1) (hdef2 : DefBV env e2) (o1 o1' o2 o2' : Orders)
+    (hal1 : alBV anno e1 o1) (hal2 : alBV anno e2 o2) (av1 av2 : AV) (hwt1 : WTBV anno env e1) (hwt2 : WTBV anno env e2)
+    (h1 : convBV anno e1 o1 = .ok (av1, o1')) (h2 : convBV anno e2 o2 = .ok (av2, o2'))
+    (hn : av1.name.isSome = true) (heq : av1.name = av2.name)
+    (v1 v2 : Nat) (hv1 : evalBV env e1 = some v1) (hv2 : evalBV env e2 = some v2) : v1 = v2 :=
+  nameOK_eq env av1.name v1 v2 hn
+    (((convBV_rest_good anno env hctx hnrm e1 o1 av1 o1' (fun hh => by rw [usesRestBV_false e1] at hh; cases hh) hal1 hdef1 hwt1
+      h1).1.2 v1 hv1).2)
+    (by rw [heq]; exact ((convBV_rest_good anno env hctx hnrm e2 o2 av2 o2' (fun hh => by rw [usesRestBV_false e2] at hh; cases hh)
+      hal2 hdef2 hwt2 h2).1.2 v2 hv2).2)
+
 /-- … without any guard when the AST has no `==` / `!=` / `*` node -/
 theorem C24_fragment_noeq_sound (anno : Nat → SI) (env : Nat → Nat)
     (hctx : ∀ i, (anno i).WF ∧ (anno i).mem (env i)) (hnrm : ∀ i, Nrm (anno i))
@@ -170,6 +196,25 @@ theorem test_eval_example :
     (convBV demoAnno demoExpr []).map (fun p => p.1.si) = .ok (SI.new 3 1 3 0) ∧
     evalBV (fun _ => 3) demoExpr = some 4 ∧ evalBV (fun _ => 5) demoExpr = some 0 := by decide
 
+/-- a shared derived node: `ZeroExt(2, x[4:2]) != SignExt(2, x[4:2])` with `x ∈ 1[0,8]` at 5 bits - `x[4:2] ∈ [0,2]` is
+non-negative, both extensions keep the (fresh) name of the ONE object the backend holds for `x[4:2]`: `False`, not
+`{False, True}`; two different nodes with the same interval still compare by value -/
+def demoShared : BExp :=
+  .cmp .ne (.zext 2 (.extract 4 2 (.var 0 5))) (.sext 2 (.extract 4 2 (.var 0 5)))
+
+theorem test_shared_name :
+    (convB (fun _ => SI.new 5 1 0 8) demoShared []).map (fun p => p.1) = .ok BoolRes.f ∧
+    (convB (fun _ => SI.new 5 1 0 8) (.cmp .ne (.zext 2 (.extract 4 2 (.var 0 5))) (.sext 2 (.extract 4 2 (.var 1 5)))) []).map
+      (fun p => p.1) = .ok BoolRes.m ∧
+    (convBV (fun _ => SI.new 5 1 0 8) (.sext 2 (.extract 4 2 (.var 0 5))) []).map (fun p => p.1.name) =
+      .ok (some (.node (.extract 4 2 (.var 0 5)))) := by decide
+
+/-- non-vacuity of `C24_same_name_same_value`: two DIFFERENT ASTs whose abstract values carry the same (derived) name -/
+example : (convBV (fun _ => SI.new 5 1 0 8) (.zext 2 (.extract 4 2 (.var 0 5))) []).map (fun p => p.1.name) =
+      .ok (some (.node (.extract 4 2 (.var 0 5)))) ∧
+    (convBV (fun _ => SI.new 5 1 0 8) (.sext 2 (.extract 4 2 (.var 0 5))) []).map (fun p => p.1.name) =
+      .ok (some (.node (.extract 4 2 (.var 0 5)))) := by decide
+
 example : WTBV demoAnno (fun _ => 3) demoExpr := by
   simp only [demoExpr, WTBV, WTB, wd, demoAnno, new_bits]
   decide
@@ -190,12 +235,13 @@ example : usesRestBV demoEq = false ∧ alBV demoAnno demoEq [] := by
   simp only [demoEq, alBV, alB, true_and]
   refine ⟨⟨(fun _ _ _ _ => ⟨(fun he => (by cases he)), (fun he => (by cases he))⟩), ?_⟩, fun _ _ _ _ => trivial⟩
   intro p1 h1 _ p2 h2
-  have e1 : p1 = ({ si := { bits := 3, stride := 1, lb := 2, ub := 6 } }, []) := by
-    have : convBV demoAnno (.bin .and (.var 0 3) (.const 6 3)) [] = .ok ({ si := { bits := 3, stride := 1, lb := 2, ub := 6 } }, []) := by decide
+  have e1 : p1 = (AV.mk { bits := 3, stride := 1, lb := 2, ub := 6 } (some (.node (.bin .and (.var 0 3) (.const 6 3)))), []) := by
+    have : convBV demoAnno (.bin .and (.var 0 3) (.const 6 3)) [] =
+        .ok (AV.mk { bits := 3, stride := 1, lb := 2, ub := 6 } (some (.node (.bin .and (.var 0 3) (.const 6 3)))), []) := by decide
     rw [this] at h1; cases h1; rfl
   subst e1
-  have e2 : p2 = ({ si := SI.new 3 0 4 4 }, []) := by
-    have : convBV demoAnno (.const 4 3) [] = .ok ({ si := SI.new 3 0 4 4 }, []) := by decide
+  have e2 : p2 = (AV.mk (SI.new 3 0 4 4) (some (.node (.const 4 3))), []) := by
+    have : convBV demoAnno (.const 4 3) [] = .ok (AV.mk (SI.new 3 0 4 4) (some (.node (.const 4 3))), []) := by decide
     rw [this] at h2; cases h2; rfl
   subst e2
   decide
